@@ -97,6 +97,8 @@ async fn resolve_recursive_notimeout<'a>(
     if let Some(candidates) = candidates {
         let mut match_count = candidates.match_count();
         let mut candidate_hostnames = candidates.hostnames;
+        #[cfg(resolved_verif)]
+        simseam::order::permute(&mut candidate_hostnames);
         let mut next_candidate_hostnames = Vec::with_capacity(candidate_hostnames.len());
         let mut resolve_candidates_locally = true;
 
@@ -105,6 +107,8 @@ async fn resolve_recursive_notimeout<'a>(
             if let Some(ip) =
                 resolve_hostname_to_ip(context, resolve_candidates_locally, candidate.clone()).await
             {
+                #[cfg(resolved_verif)]
+                simseam::trace::upstream_query(question, ip, match_count);
                 if let Some(nameserver_response) = query_nameserver(
                     (ip, context.r.upstream_dns_port).into(),
                     question.clone(),
@@ -135,6 +139,8 @@ async fn resolve_recursive_notimeout<'a>(
                         Err(delegation) => {
                             match_count = delegation.match_count();
                             candidate_hostnames = delegation.hostnames;
+                            #[cfg(resolved_verif)]
+                            simseam::order::permute(&mut candidate_hostnames);
                             next_candidate_hostnames =
                                 Vec::with_capacity(candidate_hostnames.len());
                             resolve_candidates_locally = true;
